@@ -38,7 +38,8 @@ TRUSTED = c08.TRUSTED + [
 ]
 ASSUMPTIONS = ["tasks are deterministic; one process, debug worker, no concurrent writers (C10-C12 cover those)"]
 RULE = ("pairs of tasks (python.define / shell.define) differing in exactly one aspect: function source, closure value, "
-        "module global, default argument, argstr, position, sep, formatter, executable, input value / Python type / "
+        "module global, decorator, default / keyword-only default argument, exactly one body statement (any kind, any "
+        "position incl. first and return), argstr, position, sep, formatter, executable, input value / Python type / "
         "nesting / array shape / array dtype / one element of a large array (+ identical-twin controls); histories of 2-6 submissions over {A, B} into "
         "one cache_root, each compared with a fresh run in its own root; distinct = distinct (aspect, parameters, "
         "history); non-trivial = the history submits both tasks")
@@ -57,7 +58,7 @@ Definition spec_ok (c : case_t) : bool :=
   let '(_, (sums, fresh, hist, obs)) := c in list_eqb String.eqb (map (nths fresh) hist) obs.
 """
 
-F06A = ("closure", "global")
+F06A = ("closure", "global", "decorator")
 F06B = ("argstr", "position", "sep", "formatter")
 
 
@@ -108,7 +109,45 @@ def f(x):
 '''
 
 
-ASPECTS = ["array_tail", "closure", "argstr", "value", "source", "global", "position", "type", "default", "sep", "nesting",
+STMT_KINDS = ["expr", "assign", "aug", "if", "for", "try", "nested", "with", "doc"]
+
+
+def stmt(kind, c):
+    """source lines of one statement of kind `kind` with constant c.  The input x is a tuple (inputs must not be
+    mutated); `expr` is a bare call with a side effect (it seeds the generator the return statement draws from),
+    every other kind rebinds x"""
+    if kind == "expr":
+        return ["random.seed(%d)" % c]
+    if kind == "assign":
+        return ["x = x + (%d,)" % c]
+    if kind == "aug":
+        return ["x += (%d,)" % c]
+    if kind == "if":
+        return ["if len(x) >= 0:", "    x = x + (%d,)" % c]
+    if kind == "for":
+        return ["for i in range(2):", "    x = x + (%d + i,)" % c]
+    if kind == "try":
+        return ["try:", "    x = x + (%d,)" % c, "finally:", "    pass"]
+    if kind == "nested":
+        return ["def g(z):", "    return z + %d" % c]            # called by the return statement
+    if kind == "with":
+        return ["with open('/dev/null') as fh:", "    x = x + (%d,)" % c]
+    if kind == "doc":
+        return ['"""documentation %d"""' % c]
+    raise ValueError(kind)
+
+
+def stmt_function(kinds, consts, ret_c):
+    assert kinds.count("expr") == 1
+    lines = ["import random", "", "", "def f(x):"]
+    for k, c in zip(kinds, consts):
+        lines += ["    " + ln for ln in stmt(k, c)]
+    g = "g(0)" if "nested" in kinds else "0"
+    lines.append("    return (x, %s, random.randint(0, 10 ** 6), %d)" % (g, ret_c))
+    return "\n".join(lines) + "\n"
+
+
+ASPECTS = ["array_tail", "stmt_first", "closure", "argstr", "value", "stmt_any", "decorator", "kwdefault", "source", "global", "position", "type", "default", "sep", "nesting",
            "formatter", "shape", "executable", "dtype", "twin", "shell_value"]
 
 
@@ -134,6 +173,50 @@ def gen_pair(rng, mods, aspect):
     if aspect == "default":
         a = mods.make("def f(x, y=%d):\n    return x + y\n" % k1)
         b = mods.make("def f(x, y=%d):\n    return x + y\n" % k2)
+        return aspect, [k1, k2, x], lambda: python.define(a.f)(x=x), lambda: python.define(b.f)(x=x)
+    if aspect in ("stmt_first", "stmt_any"):
+        # two functions that differ in exactly one statement: any statement kind, any position (first / middle /
+        # last / the return statement)
+        others = [k for k in STMT_KINDS[:8] if k != "expr"]
+        kinds = [rng.choice(others) for _ in range(rng.randrange(0, 4))]
+        if "nested" in kinds:            # one nested def at most
+            first = kinds.index("nested")
+            kinds = [k for i, k in enumerate(kinds) if k != "nested" or i == first]
+        kinds.insert(rng.randrange(len(kinds) + 1), "expr")      # exactly one seeding call, anywhere
+        if aspect == "stmt_first":
+            # every kind gets to be the first statement; the bare call half of the time
+            if k1 % 2 == 0:
+                kinds.remove("expr")
+                kinds.insert(0, "expr")
+            elif kinds[0] == "expr":
+                kinds.insert(0, others[k1 % len(others)])
+            else:
+                kinds[0] = others[k1 % len(others)]
+                if kinds.count("nested") > 1:
+                    kinds = [kinds[0]] + [k for k in kinds[1:] if k != "nested"]
+            pos = 0
+        else:
+            if rng.random() < 0.25:
+                kinds = ["doc"] + kinds
+            pos = rng.randrange(len(kinds) + 1)      # len(kinds) = the return statement
+        consts = [rng.randrange(100) for _ in kinds]
+        rc = rng.randrange(100)
+        consts2, rc2 = list(consts), rc
+        if pos == len(kinds):
+            rc2 = rc + 1 + rng.randrange(50)
+        else:
+            consts2[pos] = consts[pos] + 1 + rng.randrange(50)
+        a, b = mods.make(stmt_function(kinds, consts, rc)), mods.make(stmt_function(kinds, consts2, rc2))
+        return aspect, [kinds, pos, consts, consts2, rc, rc2], \
+            (lambda: python.define(a.f)(x=(x,))), (lambda: python.define(b.f)(x=(x,)))
+    if aspect == "decorator":
+        src = ("import functools\ndef scale(f):\n    @functools.wraps(f)\n    def w(*a, **k):\n"
+               "        return %d * f(*a, **k)\n    return w\ndef same(f):\n    return f\n@%s\ndef f(x):\n    return x + 1\n")
+        a, b = mods.make(src % (k1 + 1, "same")), mods.make(src % (k1 + 1, "scale"))
+        return aspect, [k1 + 1, x], lambda: python.define(a.f)(x=x), lambda: python.define(b.f)(x=x)
+    if aspect == "kwdefault":
+        a = mods.make("def f(x, *, k=%d):\n    return x + k\n" % k1)
+        b = mods.make("def f(x, *, k=%d):\n    return x + k\n" % k2)
         return aspect, [k1, k2, x], lambda: python.define(a.f)(x=x), lambda: python.define(b.f)(x=x)
     if aspect == "array_tail":
         # large arrays (byte size around multiples of 8192) that differ in one element only
